@@ -50,7 +50,7 @@ var wsElems = map[string]wsElem{
 
 var slotFull = []string{"", "a", " ", " a", "a ", " a "}
 
-func wsSkeleton(wrapOpen, wrapClose string, a, b wsElem, outer0, inner, outer4 []string, nl bool, emit func(string) bool) bool {
+func wsSkeleton(wrapOpen, wrapClose string, a, b wsElem, outer0, inner, outer4 []string, sub string, emit func(string) bool) bool {
 	s1s, s3s := inner, inner
 	if !a.free {
 		s1s = []string{a.fixed}
@@ -68,9 +68,14 @@ func wsSkeleton(wrapOpen, wrapClose string, a, b wsElem, outer0, inner, outer4 [
 				for _, s3 := range s3s {
 					for _, s4 := range outer4 {
 						d := wrapOpen + s0 + a.open + s1 + a.close + s2 + b.open + s3 + b.close + s4 + wrapClose
-						if nl {
+						if sub == "\n" {
 							d = strings.ReplaceAll(d, "> ", ">\n")
 							d = strings.ReplaceAll(d, "a ", "a\n")
+						} else if sub != "" { // a space-like character that is NOT HTML white space: never collapsible
+							d = strings.ReplaceAll(d, "> ", ">"+sub)
+							d = strings.ReplaceAll(d, "a ", "a"+sub)
+							d = strings.ReplaceAll(d, " a", sub+"a")
+							d = strings.ReplaceAll(d, " <", sub+"<")
 						}
 						if !emit(d) {
 							return false
@@ -106,15 +111,17 @@ func runWhitespace(c *core.Check) {
 			wrap          [2]string
 			first, second []string
 			o0, o4        []string
-			nl            bool
+			nl            string
 		}
 		small0, small4 := []string{"", "a", "a "}, []string{"", "a", " a"}
-		passes := []pass{{[2]string{"<div>", "</div>"}, first, second, outer0, outer4, false}}
+		passes := []pass{{[2]string{"<div>", "</div>"}, first, second, outer0, outer4, ""},
+			{[2]string{"<div>", "</div>"}, quickFirst, quickSecond, small0, small4, "\u00a0"}}
 		if th {
 			passes = append(passes,
-				pass{[2]string{"<div>", "</div>"}, first, second, small0, small4, true},
-				pass{[2]string{"", ""}, quickFirst, quickSecond, small0, small4, false},
-				pass{[2]string{"<span>", "</span>"}, quickFirst, quickSecond, small0, small4, false})
+				pass{[2]string{"<div>", "</div>"}, first, second, small0, small4, "\n"},
+				pass{[2]string{"<div>", "</div>"}, quickFirst, quickSecond, small0, small4, "\u3000"},
+				pass{[2]string{"", ""}, quickFirst, quickSecond, small0, small4, ""},
+				pass{[2]string{"<span>", "</span>"}, quickFirst, quickSecond, small0, small4, ""})
 		}
 		for _, p := range passes {
 			for _, an := range p.first {
